@@ -203,6 +203,19 @@ def steer(pkg, rng, with_dates):
     pkg.files[fn].append(M.Record("SteerGen", ("T", "U"), [("id", M.Prim("int32")), ("payload", M.TParam("T")), ("extra", M.Vec(M.TParam("U")))]))
     first.steps.append(("steergen", M.Named("SteerGen", (M.Opt(M.Prim("int32")), M.Opt(M.Prim("string")))), True))
     first.steps.append(("steergenu", M.Named("SteerGen", (M.Union((("int32", M.Prim("int32")), ("string", M.Prim("string"))), nullable=True), M.Prim("float64"))), True))
+    # unions whose cases share a JSON *container* kind: arrays (vectors, maps whose keys are not strings, complex numbers)
+    # and objects (records, maps with string keys)
+    kt = M.Prim(rng.choice(["int16", "uint8", "int64"] + (["date", "datetime"] if with_dates else [])))
+    first.steps.append(("steerarrs", M.Union((("vec", M.Vec(M.Prim("int32"))), ("kmap", M.Map(kt, M.Prim("int32")))), nullable=rng.chance(0.3), explicit=True), True))
+    first.steps.append(("steerobjs", M.Union((("rec", M.Named("SteerRec")), ("smap", M.Map(M.Prim("string"), M.Prim("int32")))), nullable=rng.chance(0.3), explicit=True), True))
+    first.steps.append(("steercplx", M.Union((("cplx", M.Prim("complexfloat32")), ("fvec", M.Vec(M.Prim("float32")))), nullable=False, explicit=True), True))
+    # a named type that can be absent, used as a record field, a step and a vector element
+    pkg.files[fn].append(M.Alias("SteerOptAls", (), M.Opt(M.Prim("string"))))
+    # (a union with the same cases as an inline one elsewhere in the model makes yardl's Python output unusable - C08, not claimed)
+    pkg.files[fn].append(M.Alias("SteerNullAls", (), M.Union((("float64", M.Prim("float64")), ("string", M.Prim("string"))), nullable=True)))
+    pkg.files[fn].append(M.Record("SteerRecAls", (), [("id", M.Prim("int32")), ("label", M.Named("SteerOptAls")), ("best", M.Named("SteerNullAls"))]))
+    first.steps.append(("steeralsrec", M.Named("SteerRecAls"), True))
+    first.steps.append(("steeralsopt", M.Named("SteerOptAls"), True))
     if with_dates:
         first.steps.append(("steerdate", M.Union((("string", M.Prim("string")), ("date", M.Prim("date"))), nullable=False), True))
         first.steps.append(("steertime", M.Union((("time", M.Prim("time")), ("int64", M.Prim("int64")), ("datetime", M.Prim("datetime"))), nullable=True, explicit=False), True))
@@ -217,6 +230,8 @@ def model_task(task, ybin, root, prop):
     json_involved = prop in ("C02", "C03")
     if want_cpp and json_involved:
         cfg.time_types = False      # C++ formats dates through the stubbed date.h: excluded from C++ NDJSON comparisons
+    if not want_cpp:
+        cfg.time_keys = True        # date / datetime map keys: usable in Python only
     pkg = sw.stream_package(rng.next(), cfg=cfg, for_cpp=want_cpp)
     if json_involved:
         steer(pkg, rng.fork("steer"), with_dates=not want_cpp)
